@@ -121,10 +121,18 @@ Print Assumptions accepted_individually_reachable_refuted.
 
 (* FULL STATEMENT (DESIGN thm 4, accepted_subset_closed_full): on EVERY graph,
      solve g n S = Some true -> incl S' S -> solve g n S' = Some true.
-   Proved on acyclic condition-free graphs, for queries asked in any order within one solver
-   session.  On graphs with cycles or conditions the statement is neither proved nor refuted here
-   (no counterexample in the exhaustive scopes of the thorough tier); it is decided on every run by
-   the independent oracle on the implementation's answers. *)
+   The faithful model REFUTES it on a cyclic graph without conditions (accepted_subset_closed_refuted;
+   the witness reproduces on cfg.so: corpus/C07, known finding iv:subset-rejected:cyclic).
+   Proved: it holds on acyclic condition-free graphs, for queries asked in any order within one
+   solver session.  On acyclic graphs WITH conditions it is neither proved nor refuted here; it is
+   decided on every run by the independent oracle on the implementation's answers. *)
+Theorem accepted_subset_closed_refuted :
+  exists g fuel n S S', wf_graph g = true /\ no_conditions g = true /\ incl S' S /\
+    solve_fresh fuel g S n = Some true /\ solve_fresh fuel g S' n = Some false /\
+    option_map snd (run_queries fuel g sstate_empty [(S, n); (S', n)]) = Some [true; true].
+Proof. exact subset_closed_refuted_lemma. Qed.
+Print Assumptions accepted_subset_closed_refuted.
+
 Theorem accepted_subset_closed_partial : forall g fuel qs st' answers,
   acyclic g -> no_conditions g = true ->
   run_queries fuel g sstate_empty qs = Some (st', answers) ->
@@ -226,6 +234,19 @@ Proof. vm_compute. reflexivity. Qed.
    end of remove_finished_goals: the goal is neither explained nor kept *)
 Example origin_without_source_set :
   remove_finished_goals 100 (mkGraph [mkNode [] None] [mkBinding 0 [mkOrigin 0 []]]) 0 [0] = Some [].
+Proof. vm_compute. reflexivity. Qed.
+
+(* a cyclic graph without conditions meets the hypotheses of accepted_individually_reachable_partial *)
+Definition loop_nocond : graph :=
+  mkGraph [mkNode [1] None; mkNode [0] None] [mkBinding 0 [mkOrigin 0 [[]]]; mkBinding 1 []].
+Example loop_nocond_hyps :
+  wf_graph loop_nocond = true /\ no_conditions loop_nocond = true /\ acyclicb loop_nocond = false /\
+  option_map snd (run_queries 100 loop_nocond sstate_empty [([0], 1); ([1], 1); ([0; 1], 0)])
+  = Some [true; false; false].
+Proof. vm_compute. repeat split; reflexivity. Qed.
+
+(* the clause (iv) witness is cyclic *)
+Example refute_iv_class : acyclicb refute_iv = false.
 Proof. vm_compute. reflexivity. Qed.
 
 (* the clause (ii) witness is acyclic and has a condition *)
